@@ -120,3 +120,76 @@ Proof. exact (gen_concat_forward_eq data). Qed.
 Print Assumptions C17_generated_nvar_forward_is_model.
 Print Assumptions C17_generated_delay_forward_is_model.
 Print Assumptions C17_generated_concat_forward_is_model.
+
+(* ================================================================================================================
+   The R-vs-Q instance gap, closed by proof (base/NumHom.v, proofs/QR_bridge_C17.v).
+   The theorems above hold for every [Num] instance, R included; the correspondence run (run/RunC17.v: chk_delay, chk_nvar,
+   chk_concat, chk_fanin) evaluates the instance at Q.  [Q2R] is a homomorphism of the [Num] class, so the window functions
+   commute with the entry-wise embedding ([qv2r := map Q2R], [qm2r := map (map Q2R)]): running at Q and embedding = running at
+   R on the embedded data.  Hence [chk_nvar / chk_delay ... = true] is a statement about the R-instance of the model on those
+   rational inputs.  No shape hypothesis, no side condition.
+   (From here on the file depends on Coq's Reals: these -- and only these -- theorems report the standard-library axioms of
+   the reals under Print Assumptions; everything above stays closed under the global context.) *)
+From Coq Require Import Rdefinitions Qreals.
+From RV Require Import base.NumHom proofs.QR_bridge_C17.
+
+(* one step of Delay (new buffer, emitted row) and of NVAR (new store, emitted feature row), any order / strides *)
+Theorem C17_Qwindows_embed :
+  (forall (buf : list (list Q)) (x : list Q),
+     (qm2r (fst (delay_step buf x)), qv2r (snd (delay_step buf x))) = delay_step (qm2r buf) (qv2r x)) /\
+  (forall (order strides : nat) (store : list (list Q)) (x : list Q),
+     (qm2r (fst (nvar_step order strides store x)), qv2r (snd (nvar_step order strides store x)))
+     = nvar_step order strides (qm2r store) (qv2r x)).
+Proof. exact Qwindows_embed. Qed.
+
+(* whole runs (the terms the runner evaluates): Delay from any initial buffer, NVAR from the fresh zero store; Concat; fan-in *)
+Theorem C17_Qwindows_runs_embed :
+  (forall (buf xs : list (list Q)),
+     (qm2r (fst (delay_run buf xs)), qm2r (snd (delay_run buf xs))) = delay_run (qm2r buf) (qm2r xs)) /\
+  (forall (delay order strides dim : nat) (xs : list (list Q)),
+     let r := nvar_run order strides (nvar_init delay strides dim) xs in
+     (qm2r (fst r), qm2r (snd r)) = nvar_run order strides (nvar_init delay strides dim) (qm2r xs)) /\
+  (forall (data : list (list Q)), qv2r (concat_forward data) = concat_forward (qm2r data)) /\
+  (forall (child : String.string) (parents : list (String.string * list Q)),
+     qv2r (fanin_concat child parents) = fanin_concat child (map (ekv Q2R) parents)).
+Proof. exact Qwindows_runs_embed. Qed.
+
+(* non-vacuity: NVAR delay 2, strides 1, order 2, dimension 2, three steps; Delay with two initial rows, three inputs *)
+Example C17_Qwindows_nvar_example :
+  snd (nvar_run 2 1 (nvar_init 2 1 2) (qm2r exxs))
+  = qm2r [[(1#2)%Q; (-3#1)%Q; 0%Q; 0%Q; (1#4)%Q; (-3#2)%Q; 0%Q; 0%Q; (9#1)%Q; 0%Q; 0%Q; 0%Q; 0%Q; 0%Q];
+          [(1#4)%Q; (2#1)%Q; (1#2)%Q; (-3#1)%Q; (1#16)%Q; (1#2)%Q; (1#8)%Q; (-3#4)%Q; (4#1)%Q; (1#1)%Q; (-6#1)%Q; (1#4)%Q; (-3#2)%Q; (9#1)%Q];
+          [(-3#2)%Q; (1#8)%Q; (1#4)%Q; (2#1)%Q; (9#4)%Q; (-3#16)%Q; (-3#8)%Q; (-3#1)%Q; (1#64)%Q; (1#32)%Q; (1#4)%Q; (1#16)%Q; (1#2)%Q; (4#1)%Q]].
+Proof. exact Qwindows_nvar_example. Qed.
+Example C17_Qwindows_delay_example :
+  delay_run (qm2r [[(7#1)%Q]; [(9#2)%Q]]) (qm2r [[(1#2)%Q]; [(1#4)%Q]; [(-3#2)%Q]])
+  = (qm2r [[(-3#2)%Q]; [(1#4)%Q]], qm2r [[(9#2)%Q]; [(7#1)%Q]; [(1#2)%Q]]).
+Proof. exact Qwindows_delay_example. Qed.
+
+Print Assumptions C17_Qwindows_embed.
+Print Assumptions C17_Qwindows_runs_embed.
+
+(* ---- the verdict of the correspondence runner, read at R ----
+   [rclose m o] is |m - o| <= 1e-9 * max(1,|m|) on reals ([vrclose], [mrclose]: entry-wise, same shape; base/NumHom.v proves
+   [qclose m o = true <-> rclose (Q2R m) (Q2R o)]).  A verdict [true] of the C17 runner functions IS a statement about the
+   R-instance of the window models on the embedded inputs. *)
+From RV Require Import run.RunC17.
+
+Theorem C17_chk_windows_are_about_R_model :
+  (forall init xs outs buf : list (list Q), chk_delay init xs outs buf = true ->
+     mrclose (snd (delay_run (qm2r init) (qm2r xs))) (qm2r outs) /\ mrclose (fst (delay_run (qm2r init) (qm2r xs))) (qm2r buf)) /\
+  (forall (delay order strides dim : nat) (xs outs store : list (list Q)), chk_nvar delay order strides dim xs outs store = true ->
+     let r := nvar_run order strides (nvar_init delay strides dim) (qm2r xs) in
+     mrclose (snd r) (qm2r outs) /\ mrclose (fst r) (qm2r store)) /\
+  (forall (data : list (list Q)) (obs : list Q), chk_concat data obs = true ->
+     vrclose (concat_forward (qm2r data)) (qv2r obs)) /\
+  (forall (child : String.string) (parents : list (String.string * list Q)) (obs : list Q), chk_fanin child parents obs = true ->
+     vrclose (fanin_concat child (map (ekv Q2R) parents)) (qv2r obs)).
+Proof. exact chk_windows_are_about_R_model. Qed.
+
+(* non-vacuity: a Delay scenario on which the runner answers true *)
+Example C17_chk_delay_example :
+  chk_delay [[(7#1)%Q]; [(9#2)%Q]] [[(1#2)%Q]; [(1#4)%Q]; [(-3#2)%Q]] [[(9#2)%Q]; [(7#1)%Q]; [(1#2)%Q]] [[(-3#2)%Q]; [(1#4)%Q]] = true.
+Proof. vm_compute. reflexivity. Qed.
+
+Print Assumptions C17_chk_windows_are_about_R_model.
